@@ -20,9 +20,19 @@ type fileMetadata struct { //nolint:unused
 }
 
 func (s *fileMetadata) Save(state map[uint16]*models.CheckpointDocument, _ map[uint16]bool, _ string) error { //nolint:unused
-	file, _ := sonic.MarshalIndent(state, "", "  ")
-	_ = os.WriteFile(s.fileName, file, 0o644) //nolint:gosec
-	return nil
+	file, err := sonic.MarshalIndent(state, "", "  ")
+	if err != nil {
+		return err
+	}
+
+	// write to a temporary file and rename it, so that a concurrent Load (or a crash)
+	// never sees a truncated or half-written checkpoint file
+	tmpName := s.fileName + ".tmp"
+	if err = os.WriteFile(tmpName, file, 0o644); err != nil { //nolint:gosec
+		return err
+	}
+
+	return os.Rename(tmpName, s.fileName)
 }
 
 func (s *fileMetadata) Load(vbIds []uint16, bucketUUID string) (*wrapper.ConcurrentSwissMap[uint16, *models.CheckpointDocument], bool, error) { //nolint:lll,unused
